@@ -146,17 +146,25 @@ func (c *core) runlock() {
 // Mutex mirrors sync.Mutex.
 type Mutex struct{ c core }
 
-func (m *Mutex) Lock()         { m.c.lock() }
+// Acquiring a lock is a scheduling point (like a function entry or a clock read): between a check
+// made under one lock, or under none, and the acquisition of the next one another goroutine may run.
+// The two sites are armed per run like every other yield site.
+const (
+	siteLock  = 0x10c0001
+	siteRLock = 0x10c0002
+)
+
+func (m *Mutex) Lock()         { simrt.Yield(siteLock); m.c.lock() }
 func (m *Mutex) Unlock()       { m.c.unlock() }
 func (m *Mutex) TryLock() bool { return m.c.tryLock() }
 
 // RWMutex mirrors sync.RWMutex (a waiting writer blocks new readers).
 type RWMutex struct{ c core }
 
-func (m *RWMutex) Lock()          { m.c.lock() }
+func (m *RWMutex) Lock()          { simrt.Yield(siteLock); m.c.lock() }
 func (m *RWMutex) Unlock()        { m.c.unlock() }
 func (m *RWMutex) TryLock() bool  { return m.c.tryLock() }
-func (m *RWMutex) RLock()         { m.c.rlock() }
+func (m *RWMutex) RLock()         { simrt.Yield(siteRLock); m.c.rlock() }
 func (m *RWMutex) RUnlock()       { m.c.runlock() }
 func (m *RWMutex) TryRLock() bool { return m.c.tryRLock() }
 
